@@ -215,10 +215,47 @@ func verifDrain() {
 			return
 		}
 	}
-	for i := 0; i < 20; i++ {
+	// free-running replay: wait until every other goroutine is parked (no goroutine but this one is running
+	// or runnable on two looks in a row), at least 10 ms and at most 500 ms - a fixed pause is too short on
+	// a loaded machine and needlessly long on an idle one
+	calm := 0
+	for i := 0; i < 250 && calm < 2; i++ {
 		runtime.Gosched()
-		time.Sleep(time.Millisecond)
+		time.Sleep(2 * time.Millisecond)
+		if i < 4 {
+			continue
+		}
+		if verifOthersParked() {
+			calm++
+		} else {
+			calm = 0
+		}
 	}
+}
+
+// verifOthersParked: no goroutine other than the caller is running or runnable.
+func verifOthersParked() bool {
+	buf := make([]byte, 1<<20)
+	buf = buf[:runtime.Stack(buf, true)]
+	me := verifGID()
+	for _, g := range bytes.Split(buf, []byte("\n\n")) {
+		if !bytes.HasPrefix(g, []byte("goroutine ")) {
+			continue
+		}
+		if verifStackGID(g) == me {
+			continue
+		}
+		i := bytes.IndexByte(g, '[')
+		j := bytes.IndexByte(g, ']')
+		if i < 0 || j < i {
+			continue
+		}
+		st := g[i+1 : j]
+		if bytes.HasPrefix(st, []byte("running")) || bytes.HasPrefix(st, []byte("runnable")) {
+			return false
+		}
+	}
+	return true
 }
 
 func verifYield()          { runtime.Gosched(); time.Sleep(time.Millisecond) }
